@@ -309,3 +309,5 @@ MANIFEST = {
     'technique': 'provenance + ownership/pairing rules over CFG paths + typestate',
     'design_ref': 'DESIGN.md 3/C16',
 }
+MANIFEST['note'] += (' Also decided here (necessary conditions shared between properties or added after the independent '
+                     'change rounds, DESIGN.md 8.7): timer coverage of request-outstanding states (from C09), parse errors leave process_message, from_exception cannot raise.')
